@@ -168,7 +168,16 @@ func (e *vhSM) check(groups int) {
 		rd := e.round()
 		if rd != nil && rd.view != nil {
 			asked := e.countReqs(vhReqDecide, e.cur) > 0 || e.savedOK('C', e.cur)
-			verifrt.Assert(verifrt.Implies(rd.view.pvAnyQuorum(), asked), "R5a:precommit-decision-asked-as-soon-as-prevote-quorum-visible")
+			// the label names the step in which the event found the state machine, so that a
+			// finding in one handler does not cover the others
+			switch e.stepBefore {
+			case tsi.StepAwaitingProposal:
+				verifrt.Assert(verifrt.Implies(rd.view.pvAnyQuorum(), asked), "R5a:precommit-decision-asked-as-soon-as-prevote-quorum-visible/event-arrived-while-awaiting-the-proposal")
+			case tsi.StepAwaitingPrevotes, tsi.StepPrevoteDelay:
+				verifrt.Assert(verifrt.Implies(rd.view.pvAnyQuorum(), asked), "R5a:precommit-decision-asked-as-soon-as-prevote-quorum-visible/event-arrived-in-a-prevote-step")
+			default:
+				verifrt.Assert(verifrt.Implies(rd.view.pvAnyQuorum(), asked), "R5a:precommit-decision-asked-as-soon-as-prevote-quorum-visible/start-up-or-later-step")
+			}
 			if e.evKind == evTimer && e.evTimerKind == vhTPrevoteDelay && e.evTimerHR == e.cur {
 				verifrt.Assert(asked, "R5b:precommit-decision-asked-when-prevote-delay-elapses")
 			}
